@@ -164,6 +164,10 @@ def run_kx(c, repo, workdir, tier):
                     other_fail.append(d)
                 if ck["status"] == "UNDETERMINED" and not comp["undecided"]:
                     pass
+            if other_fail and all("unwinding assertion" in d for d in other_fail):
+                # the harness bound is too small for this code: a tool limit, not a property violation
+                comp["undecided"] = comp["undecided"] or f"harness {h}: unwinding bound exceeded ({other_fail[0]})"
+                other_fail = []
             if other_fail:
                 o["status"] = "failed"
             if nobl == 0:
